@@ -339,6 +339,36 @@ def falsify_case(meta):
         correct = lang.get_plural_forms() or []
         if pf in correct and any(nm.startswith('unusual') for nm in names):
             return replay('registry-declaration-called-unusual')
+    # unusual iff: the language is known and no registry declaration has this nplurals, or exactly one has and the declared
+    # expression differs from it at an index the window reaches (reference parser/evaluator on both)
+    if lang is not None:
+        correct = lang.get_plural_forms()
+        if correct is not None:
+            same_n = []
+            ok = True
+            for c in correct:
+                mc = re.fullmatch(r'nplurals=([1-9][0-9]*);[ \t]*plural=([^;]+);?', c)
+                if mc is None:
+                    ok = False; break
+                try:
+                    rc = P.ref_parse(mc.group(2))
+                except P.RefSyntaxError:
+                    ok = False; break
+                if int(mc.group(1)) == n:
+                    same_n.append(rc)
+            if ok:
+                reach = 200 if first_bad is None else first_bad[0]
+                if len(same_n) == 0:
+                    want = True
+                elif len(same_n) == 1:
+                    want = any(P.ref_eval(ref, i, 32) != P.ref_eval(same_n[0], i, 32) for i in range(reach))
+                else:
+                    want = False
+                got = sum(1 for nm in names if nm.startswith('unusual'))
+                if (got > 0) != want or got > 1:
+                    return replay('unusual-tag-iff', expected_unusual=want, unusual_tags=got, registry=correct)
+    elif any(nm.startswith('unusual') for nm in names):
+        return replay('unusual-tag-iff', expected_unusual=False, registry=None)
     return None
 
 def _safe(ex, n):
